@@ -17,6 +17,7 @@ ASSUMPTIONS = ['the reference semantics in ppv/refsem.py is the meaning of a doc
                'sound for every engine that picks some denoted layout',
                'known finding C04-hardline-in-flat-group is tolerated only under the exact KF1 clause']
 BUDGET = {'quick': {'random': 6000, 'shards': 16}, 'thorough': {'random': 300000, 'shards': 16}}
+FUZZ = {'runs': 60000}   # thorough tier: 16 atheris campaigns of this many executions over the same strategy and oracle
 
 WIDTHS = [1, 2, 3, 4, 5, 6, 10]
 FRACS = [1.0, 0.5, 0.1]
@@ -46,7 +47,7 @@ def strategy(tier):
     return st.fixed_dictionaries({
         't': docterm.term_strategy(classic=False, max_leaves=14),
         'w': st.one_of(st.integers(1, 12), st.integers(1, 40)),
-        'frac': st.one_of(st.sampled_from([1.0, 0.9, 0.5, 0.3, 0.1, 0.05]), st.floats(0.01, 1.0)),
+        'frac': st.one_of(st.sampled_from([1.0, 0.9, 0.5, 0.3, 0.1, 0.05]), st.integers(1, 100).map(lambda n: n / 100)),
         'strategy': st.sampled_from(['smart', 'fast']),
     })
 
